@@ -1,6 +1,7 @@
 import InjModel.Model.Counter
 import InjModel.Generated.Layout
 import Driver.Util
+import Driver.Gen
 import Driver.Arm
 namespace Driver
 open Inj Inj.Counter
@@ -58,6 +59,7 @@ def handleCnt (args obs : List String) : Verdict :=
         else modelExit == ex && pCounts
       let keys := (if pCounts then "" else " key=c06.admission-count") ++ (if pExit then "" else " key=c06.exit-verdict") ++
                   (if pPrefix then "" else " key=c06.order")
+      Gen.withGen' (Gen.verifierExit n k false ex) <|
       { agree := agree, propOk := pCounts && pExit && pPrefix,
         branch := "cnt-T" ++ (if t == 1 then "1" else "n") ++ (if k > n then "+over" else if k < n then "+under" else "+exact") ++ (if nonm > 0 then "+nonmatch" else "") ++ (if n == 0 then "+N0" else ""),
         detail := (if agree then "" else "model=" ++ (if t == 1 then outsStr (runCalls n 0 (scripts.getD 0 [])).1 else "counts") ++ "," ++ modelExit) ++ keys }
